@@ -63,6 +63,9 @@ def run(ctx) -> None:
     r05_4(ctx)
     r05_5(ctx)
     c01.r01_4(_Relabel(ctx))
+    from . import c09
+    ctx.rule("R05.7", "tee: a child with buffered items yields them without waiting for the lock (R09.2)")
+    c09.lock_free_service(ctx, "R05.7")
     ctx.floor("tools", 20)
     ctx.floor("pull_sites", 25)
     ctx.floor("short_circuit_cells", 6)
@@ -128,7 +131,7 @@ def item_defs(ctx, u, pull: Node) -> List[Node]:
     return out
 
 
-def r05_1(ctx, u) -> None:
+def r05_1(ctx, u, rid: str = "R05.1") -> None:
     cfg = cfg_of(u)
     pulls = pull_nodes(ctx, u)
     ctx.count("pull_sites", len(pulls))
@@ -147,13 +150,20 @@ def r05_1(ctx, u) -> None:
                         and s.info["value"].id in held and "source" not in s.info:
                     defs.append(s)
                     changed = True
-        for d in defs:
+        # results computed from the item (``value = await function(..)``) are owed to the
+        # consumer just the same: holding one back across the next pull defers it
+        results = []
+        if p1 is pulls[0]:
+            results = [s for s in cfg.nodes if s.kind == "store" and not s.tag and isinstance(s.info.get("value"), ast.Await)
+                       and s not in defs and not any(s in item_defs(ctx, u, q) for q in pulls)
+                       and all(isinstance(t, ast.Name) for t in s.info.get("targets", []))]
+        for d in defs + results:
             names = [x for x in node_defs(d)]
             for name in names:
-                if (u.short, name) in WINDOW_LOCALS:
+                if (ctx.pkg.canonical(u), name) in WINDOW_LOCALS or (u.short, name) in WINDOW_LOCALS:
                     continue
                 for p2 in pulls:
-                    if source_key(ctx, u, p1) != source_key(ctx, u, p2):
+                    if d not in results and source_key(ctx, u, p1) != source_key(ctx, u, p2):
                         continue
                     for y in yields:
                         if not any(isinstance(x, ast.Name) and x.id == name for x in ast.walk(y.ast)):
@@ -174,11 +184,12 @@ def r05_1(ctx, u) -> None:
                         if to_y is None:
                             continue
                         bad += 1
-                        ctx.fail("R05.1", u, p2, f"the source is pulled again while the item held in `{name}` (pulled at "
-                                 f"line {p1.line}) has not been yielded yet: the tool reads ahead of its consumer",
-                                 node=p2, witness=pretty_path(to_p2 + to_y[1:]))
+                        ctx.fail(rid, u, p2, f"the source is pulled again while the {'result' if d in results else 'item'} held in "
+                                 f"`{name}` ({'computed' if d in results else 'pulled'} at line {d.line}) has not been yielded yet: "
+                                 "the tool reads ahead of its consumer and defers the item", node=p2,
+                                 witness=pretty_path(to_p2 + to_y[1:]))
     if not bad:
-        ctx.ok("R05.1", u, f"no item is held back across a further pull ({len(pulls)} pull sites)")
+        ctx.ok(rid, u, f"no item is held back across a further pull ({len(pulls)} pull sites)")
 
 
 def r05_2(ctx, u) -> None:
@@ -320,5 +331,5 @@ def r05_5(ctx) -> None:
                       "returns without pulling the item at `stop`", node=rets[0])
     ctx.check(found >= 1, "R05.5", u, "islice", "the bounded slice loop has an in-loop stop test")
     # an empty slice after the skip returns without pulling
-    early = [n for n in cfg.nodes if n.kind == "return" and not n.tag and not any(k == "loop" for (k, _a) in n.regions)]
+    early = [n for n in cfg.nodes if n.kind == "return" and not n.tag and not n.in_loop()]
     ctx.check(bool(early), "R05.5", u, "islice", "stop <= start returns immediately after the skip phase")
